@@ -53,6 +53,34 @@ def triplet_points(name, kw, data):
   return X[t]
 
 
+def reference_weights(B, T, batches, gamma, beta, output_iter):
+  """the documented scheme, evaluated independently in NumPy on the recorded mini-batches: adaptive dual averaging with
+  negative trimming, checkpoints at iterations output_iter, 2*output_iter, ... <= max_iter, lowest objective wins
+  (the first one among equals).  Returns (weights, smallest hinge margin met)"""
+  dd = np.square((T[:, 0] - T[:, 1]).dot(B.T)) - np.square((T[:, 0] - T[:, 2]).dot(B.T))
+  nt, nb = dd.shape
+  w = np.zeros(nb)
+  avg = np.zeros(nb)
+  ada = np.zeros(nb)
+  best, best_w = np.inf, np.zeros(nb)
+  margin = np.inf
+  for it, idx in enumerate(batches):
+    idx = np.asarray(idx, dtype=int)
+    sl = 1 + dd[idx].dot(w)
+    margin = min(margin, float(np.abs(sl).min()))
+    g = dd[idx[sl > 0]].sum(axis=0) / len(idx)
+    avg = (it * avg + g) / (it + 1)
+    ada = np.sqrt(ada ** 2 + g ** 2)
+    w = -(it + 1) / (gamma * (0.001 + ada)) * np.minimum(avg + beta, 0)
+    if (it + 1) % output_iter == 0:
+      sl = 1 + dd.dot(w)
+      margin = min(margin, float(np.abs(sl).min()))
+      obj = np.sum(w) * beta + np.sum(sl[sl > 0]) / nt
+      if obj < best:
+        best, best_w = obj, w.copy()
+  return best_w, margin
+
+
 def run(ctx):
   thorough = ctx.tier == 'thorough'
   rng = ctx.rng
@@ -123,7 +151,7 @@ def run(ctx):
         fhex(kw['gamma']), fhex(kw['beta']), kw['batch_size'], out_iter, gmat(Bz), gtrip(T),
         glist([gnlist(b) for b in batches]), gvec(wv)))
     kinds.append('run')
-    recs.append(dict(inp=inp, w=wv, kind='run'))
+    recs.append(dict(inp=inp, w=wv, kind='run', B=Bz, T=T, batches=batches, gamma=kw['gamma'], beta=kw['beta'], out_iter=out_iter))
     terms.append("(Nat.eqb (c15_run %s %s %d%%nat %d%%nat %s %s %s %s) 2)" % (
         fhex(kw['gamma']), fhex(kw['beta']), kw['batch_size'], out_iter, gmat(Bz), gtrip(T),
         glist([gnlist(b) for b in batches]), gvec(wv)))
@@ -150,6 +178,14 @@ def run(ctx):
         ctx.count('correspondence_rerun', 1)
         if r is False:
           ctx.count('correspondence_rerun', 0, failures=1)
+          # search for a failing input: the property's own statement, evaluated independently on the same mini-batches
+          wref, margin = reference_weights(rec['B'], rec['T'], rec['batches'], rec['gamma'], rec['beta'], rec['out_iter'])
+          ctx.count('falsifier', 1)
+          if margin > 1e-6 and not np.allclose(wref, rec['w'], rtol=1e-6, atol=1e-9 * (np.abs(wref).max() + 1e-300)):
+            ctx.fail_input('documented_scheme', 'the weights are not those of the documented dual-averaging scheme at the best '
+                           'checkpoint (output_iter, 2*output_iter, ... <= max_iter)', rec['inp'],
+                           observed=rec['w'].tolist(), expected=wref.tolist())
+            continue
           ctx.break_tie('correspondence', 'c15_run', "re-running the documented scheme gives other weights than %s %s" % (
               rec['inp']['estimator'], rec['inp']['params']))
       else:
